@@ -48,6 +48,7 @@ UNHASHABLE = {
     "uv_tvec": "utv", "uv_vec": "uvec", "uv_tnest": "utn",
     "u_self": "{m}", "u_selfvec": "[{m}]", "u_selftuple": "(2, [{m}])",
     "u_vec": "[1]", "u_map": "{}", "u_inst": "KI.new()", "u_tvec": "(1, [2])", "u_fn": "|| { return 1; }",
+    "u_runner": "runner", "u_runnervec": "[runner]", "u_runnertuple": "(1, runner)",
     "u_iter": "[1].iter()", "u_tnest": '((1, [2]), "x")', "u_map2": "{1: 2}", "u_fiber": "Fiber.new(|| { return 1; })",
 }
 CLASS_NAMES = {"Num": "Num", "KA#1": "KA", "KA#2": "KA", "Vec": "Vec"}
@@ -62,6 +63,7 @@ var utv = (1, [2]); var uvec = [1]; var utn = ((1, [2]), "x");
 var rga = 0..3;
 var rgb = 0..4;
 var m0 = {}; var m1 = {}; var m2 = {};
+var runner = Fiber.new(|| { return 1; });
 """
 
 
@@ -211,7 +213,8 @@ def gen_ir(seed):
             ops.append(["biglit", mi, n, rng.range(0, 3)])
         else:
             ops.append(["churn", rng.range(1, 6)])
-    return {"nmaps": nmaps, "ops": ops}
+    # the whole operation sequence may run inside a fiber (then `runner` is the running fiber itself)
+    return {"nmaps": nmaps, "ops": ops, "in_fiber": rng.chance(0.3)}
 
 
 def key_expr(name, m="m0"):
@@ -221,6 +224,8 @@ def key_expr(name, m="m0"):
 def render(ir):
     out = [PRELUDE]
     e = out.append
+    if ir.get("in_fiber"):
+        e("runner = Fiber.new(|| {")
     for i, op in enumerate(ir["ops"]):
         k = op[0]
         m = "m%d" % op[1] if k != "churn" else None
@@ -256,6 +261,10 @@ def render(ir):
         else:
             raise ValueError(k)
         e("try { %s } catch e { print((\"ev\", %d, type(e))); }" % (body, i))
+    if ir.get("in_fiber"):
+        e('return "ran";')
+        e("});")
+        e('print(("ev", "runner", runner.call(), runner.has_finished()));')
     # final state of every map
     for mi in range(ir["nmaps"]):
         e('print(("ev", "final", %d, m%d.len(), m%d.items()));' % (mi, mi, mi))
@@ -350,6 +359,9 @@ def model(ir):
             maps[op[1]] = new
             ev.append((i, "plain", [num(i), s("lit"), num(len(new))]))
         probes.max("map_size", len(maps[op[1]]))
+    if ir.get("in_fiber"):
+        probes.inc("histories_run_inside_a_fiber")
+        ev.append((len(ir["ops"]), "plain", [s("runner"), s("ran"), b(True)]))
     finals = []
     for mi in range(ir["nmaps"]):
         finals.append((len(maps[mi]), [{"t": [enc_model(kk), enc_model(vv)]} for kk, vv in maps[mi]]))
